@@ -2347,7 +2347,13 @@ class FuncLambda(ValueFunc):
             if args.hasArg(self.argNames[i]):
                 env.put(self.argNames[i], args.get(self.argNames[i]))
             elif self.defValues[i] is not None:
-                env.put(self.argNames[i], self.defValues[i].evaluate(env))
+                try:
+                    value = self.defValues[i].evaluate(env)
+                except CklRuntimeError as e:
+                    if e.pos is None:
+                        e.pos = getattr(self.defValues[i], "pos", None)
+                    raise
+                env.put(self.argNames[i], value)
             else:
                 raise CklRuntimeError(
                     ValueString("ERROR"),
